@@ -70,6 +70,11 @@ CHECKS["C02"] = dict(engine="wire", technique="property-based fault injection (d
    note="AEAD forgery by chance treated as impossible; duplicates of genuine message datagrams may be delivered again (not forbidden by the statement).",
    ref="7.0 / C02")
 
+CHECKS["C19"] = dict(engine="wire", technique="stateful property-based testing over long traffic schedules; history invariant on (key, nonce) pairs via trial decryption",
+   text="Exploration: generated long schedules (bursts of requests in one session, retransmissions, re-keying from both sides, re-encryption of in-flight requests, record-less contacts); every emitted datagram is attributed to the session key that authenticates it and no two different datagrams under one key may share a nonce; id-nonces of WHOAREYOUs never repeat.",
+   note="Detects structural reuse only (not reduced entropy below the birthday bound). Keys come from the guarded probe.",
+   ref="7.5 / C19")
+
 NOT_YET = {}
 
 def main():
